@@ -1221,6 +1221,29 @@ def unique(x, return_counts=False, return_inverse=False, axis=None, dim=None, so
     """sorted unique values; symbolic elements are resolved by forking on 'value v occurs'"""
     xa = x.a if isinstance(x, Arr) else _obj(x)
     if axis is not None or dim is not None:
+        ax_ = axis if axis is not None else dim
+        if has_sym(xa) and xa.ndim == 2 and ax_ in (0, -2) and not return_counts and not return_inverse:
+            # rows sorted lexicographically, duplicates dropped: the order / equality of symbolic rows is decided by forking
+            def lt(r1, r2):
+                for a_, b_ in zip(r1, r2):
+                    if bool(a_ < b_):
+                        return True
+                    if bool(a_ > b_):
+                        return False
+                return False
+            rows = []
+            for r_ in (list(xa[i]) for i in range(xa.shape[0])):
+                pos = 0
+                dup = False
+                for k_, q in enumerate(rows):
+                    if lt(q, r_):
+                        pos = k_ + 1
+                    elif not lt(r_, q):
+                        dup = True
+                        break
+                if not dup:
+                    rows.insert(pos, r_)
+            return type(x)(np.array(rows, dtype=object).reshape(len(rows), xa.shape[1]), dtype=x.dtype)
         if has_sym(xa):
             raise Inconclusive("unique along an axis with symbolic data")
         r = np.unique(np.array(xa.tolist()), axis=axis if axis is not None else dim, return_counts=return_counts, return_inverse=return_inverse)
